@@ -1,10 +1,10 @@
 package main
 
 import (
-	"os"
-	"runtime/debug"
 	"fmt"
 	"go/types"
+	"os"
+	"runtime/debug"
 	"strings"
 
 	"golang.org/x/tools/go/ssa"
